@@ -169,6 +169,16 @@ func verifyBJJSignatureProof(ctx context.Context, proof BJJSignatureProof2021,
 		return err
 	}
 
+	err = verifyAuthClaimInclusion(proof.IssuerData, authClaim)
+	if err != nil {
+		return err
+	}
+
+	err = validateIssuerState(proof.IssuerData.State)
+	if err != nil {
+		return err
+	}
+
 	issuerDID, err := w3c.ParseDID(proof.IssuerData.ID)
 	if err != nil {
 		return err
@@ -220,6 +230,52 @@ func verifyBJJSignatureProof(ctx context.Context, proof BJJSignatureProof2021,
 	}
 
 	return err
+}
+
+// validateIssuerState checks that the issuer state named in the proof is the
+// hash of the claims, revocation and roots tree roots given next to it.
+func validateIssuerState(state State) error {
+	ok, err := validateTreeState(TreeState{
+		State:              state.Value,
+		RootOfRoots:        state.RootOfRoots,
+		ClaimsTreeRoot:     state.ClaimsTreeRoot,
+		RevocationTreeRoot: state.RevocationTreeRoot,
+	})
+	if err != nil {
+		return err
+	}
+	if !ok {
+		return errors.New("issuer state is not consistent with its tree roots")
+	}
+	return nil
+}
+
+// verifyAuthClaimInclusion checks that the auth claim is included in the
+// issuer's claims tree.
+func verifyAuthClaimInclusion(issuerData IssuerData,
+	authClaim *core.Claim) error {
+
+	if issuerData.MTP == nil {
+		return errors.New("auth claim merkle tree proof is not set")
+	}
+	if !issuerData.MTP.Existence {
+		return errors.New("auth claim merkle tree proof is not a proof of existence")
+	}
+	if issuerData.State.ClaimsTreeRoot == nil {
+		return errors.New("issuer claims tree root is not set")
+	}
+	claimsTreeRoot, err := merkletree.NewHashFromHex(*issuerData.State.ClaimsTreeRoot)
+	if err != nil {
+		return fmt.Errorf("invalid state formant: %v", err)
+	}
+	hi, hv, err := authClaim.HiHv()
+	if err != nil {
+		return err
+	}
+	if !merkletree.VerifyProof(claimsTreeRoot, issuerData.MTP, hi, hv) {
+		return errors.New("auth claim is not included in the issuer's claims tree")
+	}
+	return nil
 }
 
 func verifyClaimSignature(claim *core.Claim, sig *babyjub.Signature,
@@ -351,6 +407,12 @@ func verifyIden3SparseMerkleTreeProof(ctx context.Context,
 
 	if rootFromProof.BigInt().Cmp(issuerClaimsTreeRoot.BigInt()) != 0 {
 		return errors.New("verifyIden3SparseMerkleTreeProof: root from proof not equal to issuer data claims tree root")
+	}
+
+	// 4. claims tree root is the one committed to by the issuer state
+	err = validateIssuerState(proof.IssuerData.State)
+	if err != nil {
+		return err
 	}
 
 	return nil
